@@ -571,6 +571,21 @@ def check_wire(P):
             return (f"`{op}`: SUBACK codes {codes}, expected {want} (OnSubscribe error={code}, per-topic rejections={rej}, "
                     f"granted QoS={grant}, protocol v{v})")
         P["suback"] = codes
+        # retained messages replayed by this SUBSCRIBE travel over the subscription as the hook left it: never above the QoS the
+        # SUBACK reports for their topic, and not at all for a filter that was refused (filters here are plain topic names)
+        final = {}
+        for t, c in zip(topics, codes):
+            final[t[0]] = c
+        for x in conns.get(f[1], ([], []))[1]:
+            pf = wire.pub_fields(x)
+            if pf is None or pf["t"] not in final:
+                continue
+            c = final[pf["t"]]
+            if c >= 128:
+                return f"`{op}`: a retained message on {pf['t']} was sent although the SUBSCRIBE was refused for that filter (code {c})"
+            if pf["q"] > c:
+                return (f"`{op}`: a retained message on {pf['t']} was sent with QoS {pf['q']} over a subscription the SUBACK reports as QoS {c} "
+                        f"(requested {lastq[pf['t']]}, OnSubscribe granted {grant.get(pf['t'])})")
     elif f[0] == "unsub":
         h = conns.get(f[1], ([], []))[0]
         ua = next((x for x in h if x.startswith("unsuback(")), None)
